@@ -23,7 +23,7 @@ Print Assumptions C18_control_invariant.
 
 Example C18_nonvacuous :
   exists s A, reach (mk_cfg BCast 2 WBusy) false s /\ get (ags s) 1 = Some A
-              /\ is_try_call (r_call (a_r A)) = true /\ a_pc A = R2.
+              /\ is_try_call (r_call (a_r A)) = true /\ a_pc A = R3.
 Proof.
   exists (reach_by (mk_cfg BCast 2 WBusy) false (Start 1 CTryRecv :: Step 1 :: nil)).
   eexists. split; [apply reach_run|]. vm_compute. repeat split.
